@@ -3,6 +3,7 @@
 ``generate(profile, seed)`` returns a self-contained JSON scenario; running it
 needs neither the seed nor this module.
 """
+import copy
 import random
 
 NAMES = ['a', 'b', 'c']
@@ -26,7 +27,7 @@ DEFAULT = dict(
     p_tick_back=0.0, mutation_ops=['write', 'write', 'rm', 'rm', 'mkdir',
                                    'touch'],
     p_refuse_step=0.0, n_muts=(1, 3), p_q_near_output=0.5, p_plant=0.2, p_double_clean=0.0,
-    p_plain_build=0.15, p_swap_groups=0.0, p_fail_after_nested=0.0,
+    p_plain_build=0.15, p_swap_groups=0.0, p_swap_dense=0.0, p_fail_after_nested=0.0,
     p_switch_root=0.3, p_anc_target=0.0, p_stepargs=0.0, p_chain=0.0,
     p_retry=0.0, p_cache_in_output_dir=0.0, p_cache_target=0.02,
     p_stepcmp=0.0, p_weird_names=0.05,
@@ -168,10 +169,14 @@ class Gen:
                 kwargs[rng.choice(['k', 'z'])] = self.rich_value()
             return args, kwargs
         pool = [[], [], [1], [2], ['x'], [[1, 2]], [{'k': 1}], [None],
-                [True], [1.5]]
+                [True], [1.5], [{'b': 1, 'a': [2]}], [3, 'x']]
         args = list(rng.choice(pool))
-        kwargs = rng.choice([{}, {}, {}, {'k': 1}, {'k': [1]}, {'z': None}])
-        return args, dict(kwargs)
+        # (keyword arguments and dict keys also in non-alphabetical order:
+        # the cache file is written with sorted keys)
+        kwargs = rng.choice([{}, {}, {}, {'k': 1}, {'k': [1]}, {'z': None},
+                             {'z': None, 'k': 1}, {'w': 80, 'h': {'y': 1,
+                                                                  'x': 2}}])
+        return args, copy.deepcopy(kwargs)
 
     # ------------------------------------------------------------------
     def gen_query(self, U):
@@ -308,7 +313,8 @@ class Gen:
                     [a for u in ctx['U'] for a in ancestors(u)]))
                 body.append(['probe', pool])
             elif k == 'mut':
-                body.append(['mut', rng.choice(['last', 'last', 'args'])])
+                body.append(['mut', rng.choice(['last', 'last', 'args',
+                                                'callargs'])])
             elif k == 'dup':
                 if ctx['calls']:
                     body.append(list(rng.choice(ctx['calls'])))
@@ -507,6 +513,19 @@ class Gen:
                     fi, fid = rng.choice(subs)
                     root.append(['sb', fid, [], {}, True])
             self.p['w_raise'] = save
+            if files and O and self.chance('p_swap_dense'):
+                # dense form: the root builds every output of its group
+                # itself, so that consecutive builds with alternating roots
+                # really swap files and directories (make_room with nested
+                # stale directories, directories replacing stale files)
+                dense = []
+                for o in rng.sample(O, len(O)):
+                    fi, fid = rng.choice(files)
+                    dense.append(['bf', o, fid, [], {},
+                                  rng.choice(['METADATA', 'HASH']), True])
+                    if rng.random() < 0.4:
+                        dense.append(self.gen_query(U))
+                root = dense + [st for st in root if st[0] != 'bf']
             roots.append(root)
             groups.append({'O': O, 'files': [f for _, f in files],
                            'subs': [f for _, f in subs]})
@@ -688,8 +707,11 @@ def gen_stragglers(seed, params=None):
                 kind = rng.choice(['exists', 'read_text', 'declare_read',
                                    'list_dir', 'is_file', 'get_size',
                                    'walk', 'read_binary', 'is_dir'])
-                rel = 'zz' if kind in ('list_dir', 'walk', 'is_dir') else \
-                    rng.choice(['z0', 'z1'])
+                # (also paths that do not exist: operations that end in an
+                # OSError are observations like any other)
+                rel = rng.choice(['zz', 'zz', 'zmd']) \
+                    if kind in ('list_dir', 'walk', 'is_dir') else \
+                    rng.choice(['z0', 'z1', 'z0', 'z1', 'zm', 'zz/g'])
                 body.append(['q', kind, rel, rng.choice(['METADATA',
                                                          'HASH'])])
             elif r < 0.8:
@@ -747,7 +769,8 @@ def gen_stragglers(seed, params=None):
         steps.append(st)
         if rng.random() < 0.75:
             steps.append({'op': 'mutate', 'muts': [
-                ['write', rng.choice(['z0', 'z1', 'zz/f', 'zz/g']),
+                ['write', rng.choice(['z0', 'z1', 'zz/f', 'zz/g', 'zm',
+                                      'zmd/f', 'zm', 'zz/g']),
                  'zchg%d' % b]]})
     if steps[-1]['op'] != 'build':
         steps.append({'op': 'build', 'root': 0, 'versions': {},
@@ -807,6 +830,8 @@ def generate(profile, seed, params=None):
         return gen_threads(seed, params)
     if profile == 'stragglers':
         return gen_stragglers(seed, params)
+    if profile == 'race':
+        return gen_race(seed, params)
     p = dict(PROFILES.get(profile, {}))
     if params:
         p.update(params)
@@ -830,6 +855,81 @@ def gen_sched(rng, n_threads=2, p_line=0.0):
                 'd': rng.randint(1, 3), 'steps': rng.choice([60, 150, 300])}
     return {'policy': 'sweep', 'thread': rng.randint(1, n_threads),
             'at': rng.randint(0, 70)}
+
+
+def gen_race(seed, params=None):
+    """Scenario for C08: a key performed directly by one thread while another
+    thread reuses (or re-executes) a cached subtree that contains it.
+
+    Build 1 is sequential and records P -> X (optionally Q -> P -> X).  The
+    racing build runs ``P`` (or ``Q``) and ``X`` in different threads; the
+    sequential builds in between are compared with from-scratch runs."""
+    P = dict(p_line=0.0, p_deep=0.35, p_file=0.5, p_mutate=0.5,
+             p_extra=0.5, p_two_races=0.5)
+    if params:
+        P.update(params)
+    rng = random.Random(seed)
+    is_file = rng.random() < P['p_file']
+    xargs = rng.choice([[1], [], [[1, 2]]])
+    if is_file:
+        funcs = {'X': {'kind': 'file', 'name': 'nX', 'variants': [
+            [['q', 'read_text', 'x0', 'METADATA'], ['w', 'once']]]}}
+        callx = ['bf', 'outx', 'X', xargs, {}, rng.choice(
+            ['METADATA', 'HASH']), True]
+    else:
+        funcs = {'X': {'kind': 'sub', 'name': 'nX', 'variants': [
+            [['q', 'read_text', 'x0', 'METADATA']]]}}
+        callx = ['sb', 'X', xargs, {}, True]
+    tail = [['q', rng.choice(['is_file', 'read_text', 'exists', 'get_size']),
+             'x1', 'METADATA'] for _ in range(rng.randint(1, 3))]
+    head = [['q', 'is_file', 'x1']] if rng.random() < 0.4 else []
+    funcs['P'] = {'kind': 'sub', 'name': 'nP',
+                  'variants': [head + [list(callx)] + tail]}
+    top = ['sb', 'P', [], {}, True]
+    if rng.random() < P['p_deep']:
+        funcs['Q'] = {'kind': 'sub', 'name': 'nQ', 'variants': [
+            [list(top), ['q', 'read_text', 'x2', 'HASH']]]}
+        top = ['sb', 'Q', [], {}, True]
+    funcs['Fok'] = {'kind': 'file', 'name': 'nFok', 'variants': [
+        [['q', 'read_text', 'x2', 'METADATA'], ['w', 'once']]]}
+    bodies = [[list(top)], [list(callx)]]
+    if rng.random() < P['p_extra']:
+        bodies.append([['bf', 'other', 'Fok', [], {}, 'METADATA', True],
+                       ['q', 'is_file', 'x0']])
+    if rng.random() < 0.3:
+        # the direct call sits inside another cached subbuild
+        funcs['R'] = {'kind': 'sub', 'name': 'nR', 'variants': [
+            [['q', 'exists', 'x2'], list(callx)]]}
+        bodies[1] = [['sb', 'R', [], {}, True]]
+    rng.shuffle(bodies)
+    nt = len(bodies)
+    roots = [[list(top)], [['spawn', bodies]]]
+    steps = [{'op': 'freebuild', 'root': 0, 'versions': {}}]
+
+    def maybe_mutate():
+        if rng.random() < P['p_mutate']:
+            steps.append({'op': 'mutate', 'muts': [
+                ['write', rng.choice(['x0', 'x1', 'x2']),
+                 'changed%d' % len(steps)]]})
+    maybe_mutate()
+    steps.append({'op': 'freebuild', 'root': 1, 'versions': {},
+                  'sched': gen_sched(rng, nt, P['p_line'])})
+    steps.append({'op': 'freebuild', 'root': rng.choice([0, 1]),
+                  'versions': {}})
+    if rng.random() < P['p_two_races']:
+        maybe_mutate()
+        steps.append({'op': 'freebuild', 'root': 1, 'versions': {},
+                      'sched': gen_sched(rng, nt, P['p_line'])})
+        steps.append({'op': 'freebuild', 'root': 0, 'versions': {}})
+    steps.append({'op': 'freeclean'})
+    return {
+        'profile': 'race', 'seed': seed,
+        'config': {'cache_rel': '../cache.gz', 'build_name': 'B',
+                   'listdir_seed': rng.randrange(1 << 30)},
+        'init': [['write', 'x0', 'in0'], ['write', 'x1', 'in1'],
+                 ['write', 'x2', 'in2']],
+        'funcs': funcs, 'roots': roots, 'steps': steps, 'n_threads': nt,
+    }
 
 
 def gen_threads(seed, params=None):
